@@ -93,3 +93,51 @@ func TestBuildTSAndExpectSpec(t *testing.T) {
 		t.Errorf("ExpectSpec denotes %q, want %q", got, want)
 	}
 }
+
+// One wrong bit in a Hamming 8/4 byte leaves the packet as it is for the page machine, two in an address byte drop it.
+func TestFlipBits(t *testing.T) {
+	mk := func(flips []int) Stream {
+		h := &Packet{Kind: KHeader, Mag: 1, Tens: 2, Subtitle: true}
+		r := &Packet{Kind: KRow, Mag: 1, Y: 20, Cells: []byte{0x0b, 0x0b, 'x', 0x0a, 0x0a}, FlipBits: flips}
+		return Stream{ES: []ES{{PID: 0x100, Descriptor: "teletext", PESs: []PES{{PTS: 900000, Units: []Unit{{Packet: h}, {Packet: r}}}, {PTS: 990000, Units: []Unit{Stuffing()}}}}}}
+	}
+	if got := Denote(Expect(mk([]int{3}), ReadOpts{}, Variant{}).Cues); got != "0-1000000000|{,}x\n" {
+		t.Errorf("single error: %q", got)
+	}
+	if x := Expect(mk([]int{3, 5}), ReadOpts{}, Variant{}); len(x.Cues) != 0 || x.Unsettled != "" {
+		t.Errorf("double error in the address: %+v", x)
+	}
+	p := Packet{Kind: KRow, Mag: 1, Y: 20, FlipBits: []int{9}}
+	q := Packet{Kind: KRow, Mag: 1, Y: 20}
+	if a, b := p.Bytes(), q.Bytes(); a[1]^b[1] != 2 || a[0] != b[0] {
+		t.Errorf("FlipBits: % x vs % x", a[:2], b[:2])
+	}
+}
+
+// The two admissible readings of the spacing attributes the sentence does not name.
+func TestRowFreedoms(t *testing.T) {
+	cells := []byte{0x0b, 0x0b, 'A', 0x08, 'B', 0x11, 'C', 0x0a, 0x0a}
+	den := func(rd RowReading) string {
+		l, u, free := decodeRow(20, cells, nil, English, rd)
+		if u != "" || free != FreeBlank|FreeMosaicColour {
+			t.Errorf("unsettled %q free %d", u, free)
+		}
+		return Denote([]Cue{{Lines: []Line{l}}})
+	}
+	for rd, want := range map[RowReading]string{
+		{}:                                "0-0|{,}ABC\n",
+		{Blank: true}:                     "0-0|{,}A B C\n",
+		{MosaicColour: true}:              "0-0|{,}AB{red,}C\n",
+		{Blank: true, MosaicColour: true}: "0-0|{,}A B{red,}C\n",
+	} {
+		if got := den(rd); got != want {
+			t.Errorf("%+v: %q, want %q", rd, got, want)
+		}
+	}
+	if _, u, _ := decodeRow(20, []byte{0x0b, 0x0b, 0x18, 'A'}, nil, English, RowReading{}); u == "" {
+		t.Errorf("text after conceal must be undecided")
+	}
+	if _, u, _ := decodeRow(20, []byte{0x0b, 0x0b, 0x12, 'a'}, nil, English, RowReading{}); u == "" {
+		t.Errorf("a mosaic character must be undecided")
+	}
+}
